@@ -302,3 +302,53 @@ def rk4_tail_group_oracle(metas, parsed):
                     out.append((cids[0], "rk4-tail-order", "RK4, two steps of h and a last step of h/2 from exact data: error of the %s decays like h^%.2f, expected h^%d (h=%r, errors %r)" %
                                 (name, s, want, [u[0] for u in use], ["%.3g" % u[1] for u in use])))
     return out
+
+
+# ---- step count against tolerance: the error ESTIMATOR's order (the embedded pair as the code applies it) ----
+TOLSCALE = {"RK23": ([1e-5, 1e-6, 1e-7, 1e-8], 1.0 / 3.0), "DOPRI5": ([1e-7, 1e-8, 1e-9, 1e-10, 1e-11], 1.0 / 5.0),
+            "DOP853": ([1e-9, 1e-10, 1e-11, 1e-12, 1e-13], 1.0 / 8.0)}
+
+
+def tolscale_builder(seed, n, defaults, tag):
+    """on a smooth problem whose right-hand side depends on the state, the number of accepted steps grows like
+    tol^(-1/(q+1)) where h^(q+1) is the order of the error estimate; an estimator of lower order (seeded change C02-d:
+    one estimator weight applied to the wrong stage) shows as a larger exponent.  Measured on the unchanged tree:
+    RK23 0.31-0.33, DOPRI5 0.175-0.20, DOP853 0.09-0.12."""
+    rng = random.Random(seed)
+    cases, metas = [], {}
+    g = 0
+    for method, (tols, _) in TOLSCALE.items():
+        for fam in (exact.sho, exact.logistic):
+            prob = fam(rng)
+            for t in tols:
+                kw = dict(method=method, prob=prob, x0=0.0, xend=3.0 * prob["span"], rtol=t, atol=t, defaults=defaults)
+                cid = "%s%d_%g" % (tag, g, t)
+                meta = {"family": prob["name"], "n": len(prob["y0"]), "backward": False, "tolmode": "mixed", "method": method,
+                        "group": g, "tol": t}
+                cases.append(gen.solve_case(cid, **kw))
+                metas[cid] = (meta, kw)
+            g += 1
+    return cases, metas
+
+
+def tolscale_group_oracle(metas, parsed):
+    out = []
+    groups = {}
+    for cid, (meta, kw) in metas.items():
+        groups.setdefault(meta["group"], []).append(cid)
+    for g, cids in groups.items():
+        method = metas[cids[0]][0]["method"]
+        pts = []
+        for cid in cids:
+            r = parsed[cid]
+            if r.get("status") == "Success" and r.get("stats") and r["stats"][4] >= 8:
+                pts.append((1.0 / metas[cid][0]["tol"], float(r["stats"][4])))
+        if len(pts) < 4:
+            continue
+        s = fit_slope([p[0] for p in pts], [p[1] for p in pts])
+        want = TOLSCALE[method][1]
+        if s is not None and s > want + 0.03:
+            pts.sort()
+            out.append((cids[0], "estimator-order", "%s on %s: accepted steps grow like tol^-%.3f (steps %r at tolerances %r), expected about tol^-%.3f for an error estimate of the advertised order" %
+                        (method, metas[cids[0]][0]["family"], s, [int(p[1]) for p in pts], ["%.0e" % (1.0 / p[0]) for p in pts], want)))
+    return out
